@@ -5,7 +5,7 @@ from oracle_util import *  # noqa
 from protocol import from_real
 
 ID = "C06"
-LEAN_MODULE = ["SCoda.Props.C06", "SCoda.Props.C06b", "SCoda.Props.Notes", "SCoda.Props.AbsTie2"]
+LEAN_MODULE = ["SCoda.Props.C06", "SCoda.Props.C06b", "SCoda.Props.Notes", "SCoda.Props.AbsTie2", "SCoda.Props.UtilTie"]
 LEVEL = "proof"
 CLAUSES = [
     ("every remaining note-off lies an allowed duration after a remaining note-on of its key; the operation never fails", ["SCoda.C06.durations", "SCoda.C06.total", "SCoda.C06.pairings_twoEl"]),
@@ -21,6 +21,8 @@ CLAUSES = [
      ["SCoda.C06.qnl_notes", "SCoda.C06.qnl_durations", "SCoda.C06.qnl_no_overlap", "SCoda.C06.qnl_wf"]),
     ('TIE BY TRANSLATION, absolute view with object identity: the dict-heavy / aliasing methods of AbsoluteSequence are re-translated statement by statement on every run (Gen/AbsFns2.lean, tools/py2lean_abs2.py: Message objects live in a heap, a reference is a position tag, stores through any alias update the heap cell, dicts are insertion-ordered association lists, while loops carry proved fuel bounds) and proved equal to the hand models, for every heap and reference list with references into the heap and channels not None: quantise_note_lengths = the model quantiseNoteLengths (None = the default note values) for pairwise distinct objects; get_message_pairings = the model pairing table (the heap only grows, the list ends up sorted)',
      ["SCoda.AbsTie2.quantiseNoteLengths_eq", "SCoda.AbsTie2.quantiseNoteLengths_init", "SCoda.AbsTie2.pairings_eq", "SCoda.AbsTie2.pairings_init", "SCoda.AbsTie2.findMinimalDistance_eq"]),
+    ('TIE BY TRANSLATION, numeric helpers: scoda/misc/util.py is re-translated statement by statement on every run (Gen/UtilFns.lean, tools/py2lean_util.py: one operator of the PyNum int/float tower per Python operator — floats as exact rationals, no rounding modelled —, range/enumerate/zip/comprehensions, while with proved fuel, numpy.digitize(right=True) modelled explicitly) and tied to the hand models and to the dumped tables: get_default_note_values() evaluated from the translated source = the dumped table the theorems quantify over; dotted and tuplet durations as the hand transcription',
+     ["SCoda.UtilTie.getDefaultNoteValues_eq", "SCoda.UtilTie.default_tables_from_source", "SCoda.UtilTie.getDottedNoteDurations_int", "SCoda.UtilTie.getTupletDurations_eq"]),
 ]
 RULE = ("well-formed multi-channel note sets (<=8 notes, back-to-back repeated pitches, very short notes) x value lists "
         "(defaults, lists with duplicates, single values) x extension on/off; non-trivial = some note's duration not in the list")
